@@ -42,6 +42,7 @@ type Op struct {
 
 	FA int    `json:"fa,omitempty"` // C18: fail the FA-th backend call of this request (1-based)
 	FK string `json:"fk,omitempty"` // C18: error kind: generic | notfound | found
+	RQ string `json:"rq,omitempty"` // junk appended to the request's raw query (malformed escapes, ';' separators)
 	JM string `json:"jm,omitempty"` // JSON mode: how the encoded body is spoiled (bool | num | null | trunc | array | nested)
 }
 
@@ -836,6 +837,13 @@ func (m *Machine) Exec(i int, op Op) *Violation {
 		}
 		if op.JM != "" && req.RawBody == nil {
 			req.JSONMangle = op.JM
+		}
+		if op.RQ != "" && req.RawQuery == "" {
+			rq := req.Query.Encode()
+			if rq != "" {
+				rq += "&"
+			}
+			req.RawQuery = rq + op.RQ
 		}
 		s.Req = req
 		s.Resp = m.W.Do(*req)
